@@ -16,10 +16,11 @@ type pendingObl struct {
 	name, kind, goal, src, expect string
 	drop                          string // marker of a script line to leave out (the site's own abort assumption)
 	dropLemmasFrom                int    // >0: leave out the assumptions of lemmas number >= this (a lemma is proved from the earlier ones only)
+	dropUsesFrom                  int    // >0: leave out the conclusions of lemma applications number >= this
 }
 
-func scriptWithout(base, marker string, lemmasFrom int) string {
-	if marker == "" && lemmasFrom == 0 {
+func scriptWithout(base, marker string, lemmasFrom, usesFrom int) string {
+	if marker == "" && lemmasFrom == 0 && usesFrom == 0 {
 		return base
 	}
 	lines := strings.Split(base, "\n")
@@ -35,9 +36,101 @@ func scriptWithout(base, marker string, lemmasFrom int) string {
 				}
 			}
 		}
+		if usesFrom > 0 {
+			if i := strings.LastIndex(l, ";;use:"); i >= 0 {
+				if k, err := strconv.Atoi(strings.TrimSuffix(l[i+len(";;use:"):], ";")); err == nil && k >= usesFrom {
+					continue
+				}
+			}
+		}
 		out = append(out, l)
 	}
 	return strings.Join(out, "\n")
+}
+
+// applyLemmas: the explicit lemma applications of the contract at one site (a loop's back edge, or function exit
+// for loop 0). For `use L(args)` with L: forall xs :: P ==> C, the instance P[args] is an obligation (proved without
+// the conclusions of this and later applications) and C[args] is assumed under the site's path condition.
+func (fc *FnCtx) applyLemmas(env *Env, loop int, cond string) {
+	if fc.C == nil {
+		return
+	}
+	for _, u := range fc.C.Uses {
+		if u.Loop != loop {
+			continue
+		}
+		var lem *Clause
+		for i := range fc.C.Lemmas {
+			if fc.C.Lemmas[i].Label == u.Label {
+				lem = &fc.C.Lemmas[i]
+			}
+		}
+		if lem == nil {
+			fc.unsupported("use: no lemma named %s", u.Label)
+			continue
+		}
+		var vars []QVar
+		if lem.Induct != "" {
+			vars = append(vars, QVar{Name: lem.Induct, Type: "int"})
+		}
+		body := lem.E
+		for {
+			q, ok := body.(*EQuant)
+			if !ok || !q.Forall {
+				break
+			}
+			vars = append(vars, q.Vars...)
+			body = q.Body
+		}
+		call := u.E.(*ECall)
+		if len(call.Args) != len(vars) {
+			fc.unsupported("use %s: %d arguments for %d lemma variables", u.Label, len(call.Args), len(vars))
+			continue
+		}
+		saved := map[string]*Val{}
+		var argVals []Val
+		for _, a := range call.Args {
+			argVals = append(argVals, env.eval(a))
+		}
+		for i, v := range vars {
+			if old, ok := env.vars[v.Name]; ok {
+				o := old
+				saved[v.Name] = &o
+			} else {
+				saved[v.Name] = nil
+			}
+			av := argVals[i]
+			if srt, typ := env.typeByName(v.Type); srt != "" && av.S == srt && typ != nil {
+				av.Typ = typ
+			}
+			env.vars[v.Name] = av
+		}
+		prem, concl := Expr(&ELit{Kind: "bool", Val: "true"}), body
+		if b, ok := body.(*EBinary); ok && b.Op == "==>" {
+			prem, concl = b.X, b.Y
+		}
+		fc.useN++
+		k := fc.useN
+		p := fc.evalBool(env, prem)
+		if lem.Induct != "" {
+			p = and("(>= "+env.vars[lem.Induct].T+" 0)", p)
+		}
+		c := fc.evalBool(env, concl)
+		env.triggers = nil
+		for name, v := range saved {
+			if v == nil {
+				delete(env.vars, name)
+			} else {
+				env.vars[name] = *v
+			}
+		}
+		site := "return"
+		if loop > 0 {
+			site = fmt.Sprintf("loop%d", loop)
+		}
+		fc.pending = append(fc.pending, pendingObl{name: fmt.Sprintf("#use.%s.%s.%d.premises", site, u.Label, k), kind: "body", goal: and(cond, not(p)), src: "premises of " + u.Src, expect: "unsat", dropUsesFrom: k})
+		fc.B.Raw(fmt.Sprintf("(assert %s) ;;use:%d;", implies(cond, c), k))
+	}
 }
 
 func (fc *FnCtx) addObl(name, kind, negGoal, src string) {
@@ -98,6 +191,9 @@ func VerifyFunc(w *World, fn *ssa.Function, c *Contract, mode string) (res *FnRe
 	if c != nil && c.Flags["splitext"] {
 		fc.B.SplitExt = true
 	}
+	if c != nil && c.Flags["splitrec"] {
+		fc.B.SplitRec = true
+	}
 	qn := QualName(fn)
 	res = &FnResult{Fn: qn, Instrs: instrCount(fn)}
 	defer func() {
@@ -155,8 +251,26 @@ func VerifyFunc(w *World, fn *ssa.Function, c *Contract, mode string) (res *FnRe
 		// lemmas: facts over the parameters (entry state), each proved from the preconditions and the earlier
 		// lemmas, then available to every other obligation of the function
 		for i, l := range c.Lemmas {
+			if l.Induct != "" {
+				// proof by induction on the int variable: base (k = 0) and step (k0 >= 0, lemma at k0 |- lemma at k0+1)
+				k := l.Induct
+				env.vars[k] = Val{S: "Int", T: "0", Typ: types.Typ[types.Int]}
+				g0 := fc.evalGoal(env, l.E)
+				fc.pending = append(fc.pending, pendingObl{name: "#lemma." + clauseName(l, i) + ".base", kind: "body", goal: not(g0), src: k + " = 0: " + l.Src, expect: "unsat", dropLemmasFrom: i + 1, dropUsesFrom: 1})
+				k0 := fc.B.Fresh("ind_"+k, "Int")
+				env.vars[k] = Val{S: "Int", T: k0, Typ: types.Typ[types.Int]}
+				hyp := fc.evalBool(env, l.E)
+				env.vars[k] = Val{S: "Int", T: "(+ " + k0 + " 1)", Typ: types.Typ[types.Int]}
+				g1 := fc.evalGoal(env, l.E)
+				fc.pending = append(fc.pending, pendingObl{name: "#lemma." + clauseName(l, i) + ".step", kind: "body", goal: and("(>= "+k0+" 0)", hyp, not(g1)), src: k + " -> " + k + "+1: " + l.Src, expect: "unsat", dropLemmasFrom: i + 1, dropUsesFrom: 1})
+				delete(env.vars, k)
+				all := &EQuant{Forall: true, Vars: []QVar{{Name: k, Type: "int"}}, Body: &EBinary{Op: "==>", X: &EBinary{Op: ">=", X: &EIdent{Name: k}, Y: &ELit{Kind: "int", Val: "0"}}, Y: l.E}}
+				a := fc.evalBool(env, all)
+				fc.B.Raw(fmt.Sprintf("(assert %s) ;;lemma:%d;", a, i+1))
+				continue
+			}
 			g := fc.evalGoal(env, l.E)
-			fc.pending = append(fc.pending, pendingObl{name: "#lemma." + clauseName(l, i), kind: "body", goal: not(g), src: l.Src, expect: "unsat", dropLemmasFrom: i + 1})
+			fc.pending = append(fc.pending, pendingObl{name: "#lemma." + clauseName(l, i), kind: "body", goal: not(g), src: l.Src, expect: "unsat", dropLemmasFrom: i + 1, dropUsesFrom: 1})
 			a := fc.evalBool(env, l.E)
 			fc.B.Raw(fmt.Sprintf("(assert %s) ;;lemma:%d;", a, i+1))
 		}
@@ -175,6 +289,7 @@ func VerifyFunc(w *World, fn *ssa.Function, c *Contract, mode string) (res *FnRe
 				env.vars[k] = v
 			}
 		}
+		fc.applyLemmas(env, 0, retCond)
 		for i, en := range c.Ensures {
 			g := fc.evalGoal(env, en.E)
 			fc.addObl("#ens."+clauseName(en, i), "body", and(retCond, not(g)), en.Src)
@@ -194,7 +309,7 @@ func VerifyFunc(w *World, fn *ssa.Function, c *Contract, mode string) (res *FnRe
 	base := fc.B.Script()
 	for _, p := range fc.pending {
 		o := &Obl{Name: qn + p.name, Kind: p.kind, Expect: p.expect, Src: p.src, Fn: qn, ModelVars: fc.modelVars}
-		o.Script = scriptWithout(base, p.drop, p.dropLemmasFrom) + "(assert " + simplifyLine(p.goal) + ")\n(check-sat)\n"
+		o.Script = scriptWithout(base, p.drop, p.dropLemmasFrom, p.dropUsesFrom) + "(assert " + simplifyLine(p.goal) + ")\n(check-sat)\n"
 		res.Obls = append(res.Obls, o)
 		if rs, ok := restrictGlobal[o.Name]; ok && c != nil {
 			if re, err := ParseExpr(rs); err == nil {
